@@ -13,6 +13,7 @@ contraction and must give that matrix (infinite MPS: on a window, exactly the te
 """
 import copy
 import itertools
+import re
 import traceback
 import warnings
 
@@ -331,9 +332,9 @@ def representations(M, n, first=0, termlist=True, heavy=True, op_basis=None):
         if isinstance(M, CouplingModel):
             reps['get_numpy_Hamiltonian(undo_sort_charge)'] = lambda: R.sort_basis(ED.get_numpy_Hamiltonian(M), win)
             reps['get_scipy_sparse_Hamiltonian'] = lambda: ED.get_scipy_sparse_Hamiltonian(M, undo_sort_charge=False).toarray()
-        reps['get_numpy_Hamiltonian(MPOModel)'] = lambda: R.sort_basis(ED.get_numpy_Hamiltonian(MPOModel(lat, M.H_MPO)), win)
+        reps['ExactDiag(MPOModel).get_numpy_Hamiltonian'] = lambda: R.sort_basis(ED.get_numpy_Hamiltonian(MPOModel(lat, M.H_MPO)), win)
         if nn:
-            reps['get_numpy_Hamiltonian(NearestNeighborModel)'] = \
+            reps['ExactDiag(NearestNeighborModel).get_numpy_Hamiltonian'] = \
                 lambda: ED.get_numpy_Hamiltonian(NearestNeighborModel(lat, M.H_bond), from_mpo=False, undo_sort_charge=False)
 
         def exact_diag(**kw):
@@ -397,6 +398,11 @@ def _full_H(ed):
     return ed.full_H.to_ndarray()[np.ix_(perm, perm)]
 
 
+def slug(e):
+    """The first words of an exception message, without numbers (part of a violation key)."""
+    return '-'.join(re.findall('[A-Za-z_]+', str(e))[:6])
+
+
 def compare(reps, H, finite, bad, info, const, where=''):
     """Evaluate the representations and compare with H (None: with the first representation); returns H."""
     scale = None
@@ -419,7 +425,7 @@ def compare(reps, H, finite, bad, info, const, where=''):
                 Hr = Hr['bonds'] if isinstance(Hr, dict) else Hr
                 err = np.abs(Hr - H).max() if Hr.shape == H.shape else np.inf
             if not err < TOL * scale:
-                bad(name + ('' if not k else '[H_bond]'), 'mismatch' + where, 'differs from the reference by %.3g (|H|max=%.3g)' % (err, scale))
+                bad(name + ('' if not k else '.H_bond'), 'mismatch' + where, 'differs from the reference by %.3g (|H|max=%.3g)' % (err, scale))
     return H
 
 
@@ -438,8 +444,8 @@ def check_case(case):
     if case['explicit'] and not herm:
         info['skipped'] = 'explicit_plus_hc with a non-hermitian sum of terms is not defined'
         return [], info
-    if ref.max_range == 0 and not info['nontrivial']:
-        info['skipped'] = 'no term'
+    if not info['nontrivial'] and (finite or ref.max_range == 0):
+        info['skipped'] = 'no term (or the terms cancel)'
         return [], info
     nn = ref.name_range <= 1 and not ref.exp and N > 1
     tags = '+'.join(['infinite'] * (not finite) + ['explicit_plus_hc'] * case['explicit'] + ['jw-string'] * ref.jw_between
@@ -453,7 +459,7 @@ def check_case(case):
     try:
         M = grid_model(lat, calls, case['explicit'], nn, **({'sort_mpo_legs': True} if case.get('sort_mpo_legs') else {}))
     except Exception as e:  # noqa: BLE001
-        bad('model:' + '+'.join(sorted({c[0] for c in calls})), 'exception:' + type(e).__name__, '%s\n%s' % (e, traceback.format_exc()[-1200:]))
+        bad('model:' + '+'.join(sorted({c[0] for c in calls})), 'exception:%s:%s' % (type(e).__name__, slug(e)), '%s\n%s' % (e, traceback.format_exc()[-1200:]))
         return viol, info
     heavy = case.get('heavy', True)
     op_basis = None if ref.exp and not finite else OP_BASIS.get(case['kind'])  # (infinite range: the list is truncated)
@@ -506,7 +512,7 @@ def check_model(case):
             warnings.simplefilter('ignore')
             M = MODELS.build(case)
     except Exception as e:  # noqa: BLE001
-        bad('model', 'exception:' + type(e).__name__, '%s\n%s' % (e, traceback.format_exc()[-1200:]))
+        bad('model', 'exception:%s:%s' % (type(e).__name__, slug(e)), '%s\n%s' % (e, traceback.format_exc()[-1200:]))
         return viol, info, None
     lat = M.lat
     N, finite = lat.N_sites, lat.bc_MPS == 'finite'
